@@ -856,3 +856,120 @@ Proof.
   split; [apply producer_blocked_full|]. split; [apply completion_blocked; auto|].
   split; [apply (p_nopanic _ P)|]. auto.
 Qed.
+
+(** ---------- well-formed trees select every item once (no duplicate paths) *)
+
+Lemma tree_ind' (P : tree -> Prop) :
+  (forall n, P (File n)) -> (forall n ch, Forall P ch -> P (Dir n ch)) -> forall t, P t.
+Proof.
+  intros HF HD. fix IH 1. intros [n|n ch]; [apply HF|]. apply HD.
+  induction ch as [|x l IHl]; constructor; auto.
+Qed.
+
+Definition item_path (it : item) : path := match it with IDir p => p | IFile p => p end.
+Definition tailok (r : path) : Prop := r = [] \/ exists r', r = SLASH :: r'.
+Definition under (pre : path) (it : item) : Prop := exists r, item_path it = pre ++ r /\ tailok r.
+
+Lemma wf_dir n ch : wf_tree (Dir n ch) = true ->
+  good_name n = true /\ forallb wf_tree ch = true /\ uniq (map tname ch) = true.
+Proof.
+  cbn [wf_tree]. intros H. apply andb_true_iff in H as [H U]. apply andb_true_iff in H as [G F].
+  repeat split; auto.
+Qed.
+
+Lemma slash_split n1 : forall n2 r1 r2,
+  good_name n1 = true -> good_name n2 = true -> tailok r1 -> tailok r2 ->
+  n1 ++ r1 = n2 ++ r2 -> n1 = n2.
+Proof.
+  unfold good_name. induction n1 as [|c1 n1 IH]; intros [|c2 n2] r1 r2 G1 G2 T1 T2 E; cbn in *; auto.
+  - destruct T1 as [->|[r' ->]]; [discriminate|]. inversion E; subst.
+    cbn in G2. discriminate.
+  - destruct T2 as [->|[r' ->]]; [discriminate|]. inversion E; subst.
+    cbn in G1. discriminate.
+  - inversion E; subst. f_equal.
+    apply negb_true_iff in G1, G2. apply orb_false_iff in G1 as [_ G1], G2 as [_ G2].
+    apply (IH n2 r1 r2); auto; apply negb_true_iff; auto.
+Qed.
+
+Section ND.
+  Variable cfg : config.
+
+  Lemma sel_list_in base l it : In it (sel_list cfg base l) -> exists t, In t l /\ In it (sel cfg base t).
+  Proof. unfold sel_list. rewrite in_flat_map. auto. Qed.
+
+  Lemma sel_under t : forall base it, In it (sel cfg base t) -> under (base ++ tname t) it.
+  Proof.
+    induction t as [n|n ch IH] using tree_ind'; intros base it H.
+    - rewrite sel_file in H. destruct (faccept cfg (base ++ n)); [|contradiction].
+      destruct H as [<-|[]]. exists []. cbn. rewrite app_nil_r. split; auto. left; auto.
+    - rewrite sel_dir in H. destruct (daccept cfg (base ++ n)); [|contradiction].
+      apply in_app_or in H as [H|H].
+      + destruct (on_dir cfg); [|contradiction]. destruct H as [<-|[]].
+        exists []. cbn. rewrite app_nil_r. split; auto. left; auto.
+      + apply sel_list_in in H as (t & Ht & Hi). rewrite Forall_forall in IH.
+        destruct (IH t Ht _ _ Hi) as (r & E & _).
+        exists (SLASH :: tname t ++ r). split; [|right; eauto].
+        rewrite E. cbn [tname]. rewrite <- !app_assoc. reflexivity.
+  Qed.
+
+  Lemma NoDup_app' {A} (l1 l2 : list A) :
+    NoDup l1 -> NoDup l2 -> (forall x, In x l1 -> ~ In x l2) -> NoDup (l1 ++ l2).
+  Proof.
+    induction 1; cbn; auto. intros N2 D. constructor.
+    - intros Q. apply in_app_or in Q as [Q|Q]; auto. revert Q. apply D. cbn; auto.
+    - apply IHNoDup; auto.
+  Qed.
+
+  Lemma wf_good t : wf_tree t = true -> good_name (tname t) = true.
+  Proof. destruct t; [auto|]. intros H. apply wf_dir in H. tauto. Qed.
+
+  Lemma mem_path_In p l : mem_path p l = true <-> In p l.
+  Proof.
+    induction l; cbn; [split; [discriminate|contradiction]|].
+    rewrite orb_true_iff, IHl, bytes_eqb_spec. split; intros [H|H]; auto.
+  Qed.
+
+  Lemma sel_list_nodup l : forall base,
+    Forall (fun t => forall base, wf_tree t = true -> NoDup (sel cfg base t)) l ->
+    forallb wf_tree l = true -> uniq (map tname l) = true -> NoDup (sel_list cfg base l).
+  Proof.
+    induction l as [|t l IH]; intros base F W U.
+    - constructor.
+    - rewrite sel_list_cons. cbn in W, U. apply andb_true_iff in W as [Wt Wl]. apply andb_true_iff in U as [Ut Ul].
+      inversion F as [|? ? Ft Fl]; subst.
+      apply NoDup_app'; auto.
+      intros it H1 H2. apply sel_list_in in H2 as (t' & Ht' & H2).
+      apply sel_under in H1. apply sel_under in H2.
+      destruct H1 as (r1 & E1 & T1). destruct H2 as (r2 & E2 & T2).
+      rewrite E1 in E2. rewrite <- !app_assoc in E2. apply app_inv_head in E2.
+      apply slash_split in E2; auto.
+      + apply negb_true_iff in Ut. assert (mem_path (tname t) (map tname l) = true); [|congruence].
+        apply mem_path_In. rewrite E2. apply in_map. auto.
+      + apply wf_good; auto.
+      + apply wf_good. rewrite forallb_forall in Wl. auto.
+  Qed.
+
+  Lemma sel_nodup t : forall base, wf_tree t = true -> NoDup (sel cfg base t).
+  Proof.
+    induction t as [n|n ch IH] using tree_ind'; intros base W.
+    - rewrite sel_file. destruct (faccept cfg (base ++ n)); repeat constructor. intros [].
+    - rewrite sel_dir. destruct (daccept cfg (base ++ n)); [|constructor].
+      apply wf_dir in W as (G & F & U).
+      apply NoDup_app'.
+      + destruct (on_dir cfg); repeat constructor. intros [].
+      + apply sel_list_nodup; auto.
+      + intros it H1 H2. destruct (on_dir cfg); [|contradiction]. destruct H1 as [<-|[]].
+        apply sel_list_in in H2 as (t & Ht & H2). apply sel_under in H2 as (r & E & _).
+        cbn in E. apply (f_equal (@length _)) in E. rewrite !app_length in E. cbn in E. lia.
+  Qed.
+
+  Lemma wf_sel_nodup base l : wf_list l = true -> NoDup (sel_list cfg base l).
+  Proof.
+    unfold wf_list. intros H. apply andb_true_iff in H as [W U].
+    apply sel_list_nodup; auto. apply Forall_forall. intros t _ b. apply sel_nodup.
+  Qed.
+End ND.
+
+Lemma log_nodup_wf cfg base root sched :
+  wf_list root = true -> NoDup (log (run cfg sched (init cfg base root))).
+Proof. intros W. apply log_nodup. apply wf_sel_nodup. exact W. Qed.
